@@ -69,6 +69,8 @@ def poly(  # pylint: disable=dangerous-default-value  # always replaced by state
     """
 
     if raw:
+        # (in floating point: integer powers silently wrap around)
+        x = numpy.asarray(x, dtype=numpy.float64)
         return numpy.stack([numpy.power(x, k) for k in range(1, degree + 1)], axis=1)
 
     x = numpy.array(x, dtype=numpy.float64)
